@@ -71,10 +71,17 @@ def spaces(tier):
         out.append(cs.db_space(3, combo, 1))
         if tier == 'thorough':
             out.append(cs.db_space(5, combo, 1))
+    out.append(cs.db_space(2, cs.ZERO[1], 0, cli=True))
+    out.append(cs.db_space(2, cs.ZERO[2], 0, cli=True))
+    for combo in cs.ODD:
+        out.append(cs.db_space(4, combo, 1))
+    out.append(cs.sequence_space(3 if tier == 'quick' else 4))
     return out
 
 
 def run_case(case):
     viol, info = cs.run_case_for(case, WANT)
+    if case['kind'] == 'sequence':
+        return cs.to_result(viol[ID], info)
     info['nontrivial'] = bool(info.get('counters', {}).get('records_with_pairs'))
     return cs.to_result(viol['C03'], info)
